@@ -57,8 +57,9 @@ CLAIMS = {
                      "of listed panic sites",
         "text": "Proof for the listed sites only: find_value no longer reaches unreachable!() and returns Err; "
                 "EitherOfWrapper::new/wrap never index out of bounds, never underflow, terminate; default_of_inner "
-                "terminates on every inherits graph; the JSON / script string writers are total; range arithmetic has "
-                "no overflow (Kani checks on). Bounded (Kani, not counted as proved): the scan for the `{..}` arguments "
+                "terminates on every inherits graph; the JSON / script string writers are total; the build-script API's "
+                "option walk (find_used_datakey, get_icu_keys_inner) terminates on every tree and reaches no panicking "
+                "operation; range arithmetic has no overflow (Kani checks on). Bounded (Kani, not counted as proved): the scan for the `{..}` arguments "
                 "of a foreign key (statements of parse_foreign_key_args lifted verbatim) neither splits out of range nor "
                 "inside a character, for every UTF-8 text of up to 5 (quick) / 7 (thorough) bytes over a small alphabet "
                 "with multibyte characters.",
